@@ -10,14 +10,15 @@ SWITCH = ["Converter", "LinReg", "PSwitch"]
 LOADS = ["PLoad", "ILoad", "RLoad"]
 
 
-def skel_states(ctx):
-    """(states, TLC counts); the invariants of MCSkel are checked by the same run"""
+def skel_states(ctx, big=False):
+    """(states, TLC counts); the invariants of MCSkel are checked by the same run.  big: the 4-component model also in
+    the quick tier (two sources + a regulator + a mux need four components)"""
     import tlc
-    key = "q" if ctx.quick else "t"
+    key = "q" if (ctx.quick and not big) else "t"
     if key not in _CACHE:
-        cfg = "MCSkelQ.cfg" if ctx.quick else "MCSkel.cfg"
+        cfg = "MCSkelQ.cfg" if key == "q" else "MCSkel.cfg"
         states, cnt = tlc.run_states("MCSkel.tla", cfg, ctx.work, workers=8)
-        cnt["name"] = "discrete skeleton: every tree of <= %d components x liveness x phase lists (%s)" % (3 if ctx.quick else 4, cfg)
+        cnt["name"] = "discrete skeleton: every tree of <= %d components x liveness x phase lists (%s)" % (3 if key == "q" else 4, cfg)
         _CACHE[key] = (states, cnt)
     return _CACHE[key]
 
